@@ -141,6 +141,17 @@ def box(r, family=None):
         return [c, c + w]
     if family == "asym":
         return [r.uniform(-3, 0), r.uniform(0.001, 1000)]
+    if family == "extreme":
+        # finite bounds and a finite width, but sums of two coordinates overflow (not in BOX_FAMILIES: only workloads that
+        # ask for it get it)
+        k = r.choice(["pos", "neg", "span"])
+        if k == "pos":
+            lb = r.uniform(1, 9) * 10.0 ** r.randint(300, 307)
+            return [lb, min(lb * r.uniform(1.01, 15), 1.79e308)]
+        if k == "neg":
+            ub = -r.uniform(1, 9) * 10.0 ** r.randint(300, 307)
+            return [max(ub * r.uniform(1.01, 15), -1.79e308), ub]
+        return [-r.uniform(1, 8.9) * 1e307, r.uniform(1, 8.9) * 1e307]
     raise ValueError(family)
 
 
